@@ -166,7 +166,7 @@ def images(ev, rng, tier):
                 choices = [list(range(k)) for k in range(0, n + 1, max(1, n // 6))]
                 choices += [[j for j in range(n) if j != k] for k in rng.sample(range(n), min(4, n))]
                 choices += [sorted(rng.sample(range(n), rng.randint(1, n - 1))) for _ in range(4 if tier != "thorough" else 24)]
-            cap = 6 if tier != "thorough" else 24
+            cap = 6 if tier != "thorough" else 16
             if len(choices) > cap:
                 choices = rng.sample(choices, cap)
             for ch in choices:
@@ -275,7 +275,7 @@ def run_c04(tier, seed, replay=None):
     out = Outcome()
     problems = []
     rng = random.Random(seed)
-    nh = 3 if tier != "thorough" else 8
+    nh = 3 if tier != "thorough" else 6
     nhttp = 1 if tier != "thorough" else 3
     okb, sbin, blog = build.build_server_bin()
     if not okb:
